@@ -15,6 +15,24 @@ CLAIMED = {
             "sides of every internal regime switch, exact special points and negative arguments.",
             "mpmath (validated by oracle self-test against /repo/test/data and quadrature); sampling, not proof",
             "4/C01"),
+    "C03": ("property-based testing (Hypothesis): differential comparison of the library's one-loop results with an "
+            "independently written mpmath evaluation (own mass matrices, own diagonalisation, signed-mass convention)",
+            "Generated MSSM and THDM parameter points over the stated domain; the reference shares no code, convention "
+            "or loop-function implementation with the library; tolerance 1e-8 of the sum of absolute terms.",
+            "correctness of the cited formulas as transcribed in pbt/c03_oneloop.py (cross-validated: they reproduce the "
+            "library on all sign patterns); THDM reference uses the model's own Yukawa getters as the property states",
+            "4/C03"),
+    "C06": ("property-based testing (Hypothesis): metamorphic relation between a parameter point and its joint sign flip",
+            "Generated on-shell points with independent signs and three independent generations; every public and helper "
+            "a_mu function, the resummation factors, uncertainties and all masses are compared between the two runs.",
+            "tolerance normalised by the sum of |terms| built from the library's helper arrays (only as a scale)",
+            "4/C06"),
+    "C18": ("property-based testing (Hypothesis): documented uncertainty sums recomputed from the public a_mu functions; "
+            "overload differential",
+            "Generated MSSM and THDM models including light new physics and cancelling loop orders; finiteness, sign, "
+            "floors, the documented sums and bit-identity of the precomputed-value overloads are checked on every model.",
+            "the documented sums are those of the doxygen comments / README; sampling, not proof",
+            "4/C18"),
 }
 
 TEXT_DEFAULT = "check not built yet (work in progress; see DESIGN.md section 4)"
